@@ -24,9 +24,10 @@ package mp
 //@ nilsafe
 //@ requires held(n.mx) == 0 && n.gs != nil && forall_t(q, string, imp(has(n.gs, q), n.gs[q] != nil))
 //@ ensures [lock-released] held(n.mx) == 0
-//@ ensures [first-use-of-a-path-is-row-0] imp(!old(has(n.gs, segment)), result == 0 && has(n.gs, segment) && *n.gs[segment] == 0)
-//@ ensures [later-uses-count-up] imp(old(has(n.gs, segment)), result == old(*n.gs[segment]) + 1 && *n.gs[segment] == result)
-//@ ensures [other-paths-untouched] forall_t(q, string, imp(q != segment && old(has(n.gs, q)), has(n.gs, q) && n.gs[q] == old(n.gs[q])))
+//@ ensures [first-use-of-a-path-is-row-0] imp(quiet() && !old(has(n.gs, segment)), result == 0 && has(n.gs, segment) && *n.gs[segment] == 0)
+//@ ensures [later-uses-count-up] imp(quiet() && old(has(n.gs, segment)), result == old(*n.gs[segment]) + 1 && *n.gs[segment] == result)
+//@ ensures [other-paths-untouched] forall_t(q, string, imp(quiet() && q != segment && old(has(n.gs, q)), has(n.gs, q) && n.gs[q] == old(n.gs[q])))
+//@ at assign n.gs[segment] assert [a-path-s-counter-is-created-once-and-never-replaced] !has(n.gs, segment)
 
 //@ func (n *NextIterator) Rand
 //@ props C11 C13
